@@ -252,6 +252,9 @@ impl G {
                 out.push(("rev".into(), G::GeometryCollection(GeometryCollection::new_from(gc.0.iter().rev().cloned().collect()))));
             }
         }
+        // the same coordinates with every zero written as negative zero (0.0 == -0.0: the same point set)
+        let nz = self.map(&|c| Coord { x: if c.x == 0.0 { -0.0 } else { c.x }, y: if c.y == 0.0 { -0.0 } else { c.y } }, true);
+        out.push(("negzero".into(), nz));
         // any geometry as a one-member collection
         out.push(("gc1".into(), G::GeometryCollection(GeometryCollection::new_from(vec![self.geometry()]))));
         out
